@@ -12,7 +12,12 @@ BUILD = os.path.join(VERIF, "build") if REPO == "/repo" else os.path.join(VERIF,
 H = os.path.join(VERIF, "harness")
 
 SAN = "-fsanitize=address,undefined -fno-sanitize-recover=undefined"
-COMMON = "-g -O1 -fno-omit-frame-pointer -DTROMPELOEIL_SANITY_CHECKS -Wno-deprecated-declarations"
+COMMON = "-g -O1 -fno-omit-frame-pointer -Wno-deprecated-declarations"
+# The library's internal assertions (TROMPELOEIL_SANITY_CHECKS) join the oracle in the clang++ rapidcheck builds. The g++
+# builds, the libFuzzer build and the owned-schedule build of engine T are compiled the way users compile: without them
+# (an assertion's operand must not be what makes the library work).
+def sanity_flag(name):
+    return "" if (name.endswith("_gcc") or name in ("w_fuzz", "t_asan")) else "-DTROMPELOEIL_SANITY_CHECKS"
 
 def W_sources(cxx):
     srcs = [dict(src="world/real.cpp"), dict(src="world/lit.cpp"), dict(src="world/scoped.cpp")]
@@ -83,7 +88,7 @@ def build(name, jobs=None, quiet=True):
     srcs = t["srcs"]() if callable(t["srcs"]) else t["srcs"]
     th = _tree_hash()
     hh = _harness_hash([os.path.dirname(s["src"]) for s in srcs])
-    base = "%s -std=%s %s %s -I%s/include -I%s %s" % (t["cxx"], t["std"], COMMON, t["flags"], REPO, H, t.get("cflags", ""))
+    base = "%s -std=%s %s %s %s -I%s/include -I%s %s" % (t["cxx"], t["std"], COMMON, sanity_flag(name), t["flags"], REPO, H, t.get("cflags", ""))
     objs = []
     todo = []
     for s in srcs:
